@@ -423,13 +423,13 @@ class PEval:
                     raise Raised("ValueError", e)
                 except TypeError:
                     raise Raised("TypeError", e)
-            if n in ("abs", "min", "max", "bool", "list", "tuple", "sorted", "sum", "any", "all", "range", "enumerate", "zip", "set", "type"):
+            if n in ("abs", "min", "max", "bool", "list", "tuple", "sorted", "sum", "any", "all", "range", "enumerate", "zip", "set", "type", "dict"):
                 if any(isinstance(a, Opaque) for a in args):
                     raise PEvalUnsupported(f"{n} of opaque")
                 fn = {"abs": abs, "min": min, "max": max, "bool": bool, "list": list, "tuple": tuple,
                       "sorted": sorted, "sum": sum, "any": any, "all": all, "range": lambda *a: list(range(*a)),
                       "enumerate": lambda x: list(enumerate(x)), "zip": lambda *a: list(zip(*a)), "set": set,
-                      "type": type}[n]
+                      "type": type, "dict": dict}[n]
                 try:
                     return fn(*args)
                 except (TypeError, ValueError) as ex:
